@@ -99,7 +99,7 @@ def replay(chk, behaviours, K, opts, owned, variant='seq', tag='', timeout=3000,
         if fl: failing.append((i, fl))
     for (i, rc, text) in crashes:
         beh = json.loads(behaviours[i])
-        sig = 'crash|' + crash_site(text)
+        sig = 'crash|' + ('watchdog-hang' if rc == -14 else crash_site(text))
         chk.violation(sig, 'driver crashed (rc=%s) replaying: %s\n%s' % (rc, prog_text(beh), text[-1500:]),
                       {'driver': args, 'K': K, 'behaviour': beh, 'variant': variant})
     if failing and confirm:
